@@ -48,6 +48,8 @@ OBLIGATIONS = [
     "Grog.C17.patternFromLabel_matches_self",
     "Grog.C17.recursive_subsumes",
     "Grog.C17.exact_subsumed",
+    "Grog.C17.parsePatterns_append_isSome",
+    "Grog.C17.parsePatterns_union",
 ]
 ASSUMPTIONS = [
     "errors of the Go parsers are compared only as ok / not ok",
